@@ -1,6 +1,6 @@
 // C03: interpolation is exact on the function space spanned by the grid's basis, at a SYMBOLIC evaluation point x.
 // C05 (mode 1): differentiate(x) is the exact gradient of evaluate(x) (the driver differentiates the expression of evaluate).
-// optional 3rd arg: history through which the queried grid is reached   0 make + load | 1 make(depth-1), load, updateGrid(depth), load | 2 = 1 then copy | 3 = 1 then binary write/read
+// optional 3rd arg: history through which the queried grid is reached   0 make + load | 1 make(depth-1), load, updateGrid(depth), load | 2 = 1 then copy | 3 = 1 then binary write/read | 4 dynamic construction from the coarsest grid, the points of the target grid delivered ONE AT A TIME in index order (incremental surplus updates)
 // args: <grid spec> <mode>   mode 0: exactness (C03)   mode 1: derivative (C05, arbitrary symbolic values)   mode 2: derivative on the reproduced space (C05 + C03)
 #include "tgrid.hpp"
 #include <complex>
@@ -68,7 +68,14 @@ int main(int argc, char **argv){
         else v[i * outs + k] = (k == 0) ? p(z) : (k + 1.0) * p(z);   // further outputs: multiples of the same function
       } }
     return v; };
-  if (hist == 0 || grid.isLocalPolynomial() || grid.isWavelet() || g.depth == 0) grid.loadNeededValues(valsFor(pts));
+  if (hist == 4 && (grid.isSequence() || grid.isLocalPolynomial())){
+    GridSpec g0 = g; g0.depth = 0; TasmanianSparseGrid w; makeGrid(w, g0);
+    w.beginConstruction();
+    for (int i=0;i<n;i++){ std::vector<double> pt = pointAt(pts, d, i); w.loadConstructedPoints(pt, valsFor(pt)); }
+    w.finishConstruction();
+    fpsym_check(w.getNumLoaded() == n, "point-by-point construction in index order loads every delivered point");
+    grid = std::move(w); pts = grid.getPoints(); n = grid.getNumPoints();
+  } else if (hist == 0 || hist == 4 || grid.isLocalPolynomial() || grid.isWavelet() || g.depth == 0) grid.loadNeededValues(valsFor(pts));
   else {
     // the same function space, reached through an update of a coarser loaded grid (and then a copy / a round trip)
     GridSpec g0 = g; g0.depth = g.depth - 1; TasmanianSparseGrid w; makeGrid(w, g0);
